@@ -265,7 +265,7 @@ def slip_kernel(E, L):
     del _dv.calls[:]
     s = M.slip_vector_c(p0, p1, V, nlist, True, False, True)
     E.prove('slip_vector_c.shape', s.shape == (n, 3))
-    E.prove('slip_vector_c.two_dvect_calls_per_atom', len(_dv.calls) == 2 * n)
+    E.shape('slip_vector_c.two_dvect_calls_per_atom', len(_dv.calls) == 2 * n)
     for i in range(n):
         coord = int(nlist[i, 0])
         c0, c1 = _dv.calls[2 * i], _dv.calls[2 * i + 1]
@@ -482,7 +482,7 @@ def strain_cache(E, L):
                             cached.add(tgt.attr)
             if isinstance(node, _ast.Call) and isinstance(node.func, _ast.Attribute) and node.func.attr == 'clear_properties':
                 calls_clear.add(fn.name)
-    E.prove('cache.cached_attributes_found', {'__strain', '__rotation', '__angularvelocity', '__invariant1', '__G', '__nye'} <= cached)
+    E.shape('cache.cached_attributes_found', {'__strain', '__rotation', '__angularvelocity', '__invariant1', '__G', '__nye'} <= cached)
     E.prove('cache.every_cached_attribute_is_cleared', cached <= cleared)
     E.prove('cache.solvers_and_constructor_clear_first', {'solve_G', '__init__'} <= calls_clear)
     # executed: stale sentinels everywhere, then clear, then read
